@@ -144,7 +144,10 @@ func (g *tg) strBody() {
 	for i := 0; i < n; i++ {
 		switch r.Pick(40, 14, 12, 5, 8, 4, 2) {
 		case 0:
-			g.out = append(g.out, uint16("abcxyzABC 019_-.,:{}[]/'"[r.Intn(25)]))
+			{
+				const plain = "abcxyzABC 019_-.,:{}[]/'"
+				g.out = append(g.out, uint16(plain[r.Intn(len(plain))]))
+			}
 		case 1:
 			g.put(simpleEsc[r.Intn(len(simpleEsc))])
 		case 2:
